@@ -175,6 +175,32 @@ pub fn via_session(out: &mut Out, networks: usize, burst: usize) {
 /// `signals`: that many signals are published to the session before it first runs (more than the signal queue holds: the
 /// session's subscriber has been overrun when it starts reading its client's frames - it skips, it does not hang up)
 pub fn via_session_sig(out: &mut Out, networks: usize, burst: usize, signals: usize) {
+    let (i, o) = via_session_line(networks, burst, signals, false);
+    out.case(&i, &o, true);
+    out.count("commands through a real client session");
+}
+
+/// `bad_header`: a header the daemon rejects (LXR, right version, payload length 0: exactly ten bytes, the stream stays
+/// aligned) sits between the client's commands - the commands after it are commands all the same.  The whole scenario runs on
+/// its own thread with a 20 s limit (a session that spins on the rejected header would never give the executor back).
+pub fn via_session_bad_header(out: &mut Out, burst: usize) {
+    let (tx, rx) = std::sync::mpsc::channel();
+    std::thread::spawn(move || {
+        let _ = tx.send(via_session_line(1, burst, 0, true));
+    });
+    match rx.recv_timeout(Duration::from_secs(20)) {
+        Ok((i, o)) => out.case(&i, &o, true),
+        Err(_) => {
+            // nothing came back: the session never returned control (reported as: no command was handled)
+            let mut toks: Vec<String> = (0..burst).map(|i| format!("s:{}", 100 + i)).collect();
+            toks.push("s:9999".into());
+            out.case(&format!("bus 1 {}", toks.join(" ")), "-", true);
+        }
+    }
+    out.count("a rejected header between a client's commands");
+}
+
+fn via_session_line(networks: usize, burst: usize, signals: usize, bad_header: bool) -> (String, String) {
     let rt = tokio::runtime::Builder::new_current_thread().enable_all().build().unwrap();
     let shared = Arc::new(Shared {
         handled: Mutex::new(vec![vec![]; networks]),
@@ -201,6 +227,9 @@ pub fn via_session_sig(out: &mut Out, networks: usize, burst: usize, signals: us
             let vb = v.to_be_bytes();
             bytes.extend(crate::sess::frame(0x20, &[0x05, vb[0], vb[1]]));
             toks.push(format!("s:{}", v));
+            if bad_header && i == 0 {
+                bytes.extend_from_slice(&[b'L', b'X', b'R', 3, 0x20, 0, 0, 0, 0, 0]);
+            }
         }
         bytes.extend(crate::sess::frame(0x20, &[0x00]));
         toks.push("s:9999".to_string());
@@ -237,8 +266,7 @@ pub fn via_session_sig(out: &mut Out, networks: usize, burst: usize, signals: us
         let lists: Vec<String> = h.iter().map(|l| if l.is_empty() { "-".to_string() } else { l.iter().map(|x| x.to_string()).collect::<Vec<_>>().join(",") }).collect();
         (toks.join(" "), lists.join(";"))
     });
-    out.case(&format!("bus {} {}", networks, line.0), &line.1, true);
-    out.count("commands through a real client session");
+    (format!("bus {} {}", networks, line.0), line.1)
 }
 
 /// Several producers AT ONCE through the real server: the real UnixServer scheduled in the real Runtime (its accept loop
@@ -310,6 +338,9 @@ pub fn run(out: &mut Out, tier: &str, rng: &mut Rng) {
     let thorough = tier == "thorough";
     for clients in [1usize, 2, 3, 5] {
         via_server(out, clients);
+    }
+    for burst in [2usize, 5] {
+        via_session_bad_header(out, burst);
     }
     // a client whose session has been overrun by published signals is still a producer: all its commands are delivered
     for (burst, signals) in [(3usize, 17usize), (8, 17), (8, 40), (12, 16), (12, 100)] {
